@@ -11,6 +11,7 @@ import shutil
 from datetime import date, datetime, timezone
 
 REC = []
+STY = []
 _INSTALLED = {}
 
 
@@ -43,6 +44,7 @@ def install_recorder(sym):
 
     def _fill(cls, sheet, row_index, column_index, value, *a, **kw):
         REC.append((sheet, row_index, column_index, value))
+        STY.append((kw.get("visual_style", a[0] if len(a) > 0 else "transparent"), kw.get("data_style", a[1] if len(a) > 1 else "default")))
         if sym:
             value = _placeholder(value)
         return orig(cls, sheet, row_index, column_index, value, *a, **kw)
@@ -71,15 +73,18 @@ def final_sheets():
 class Record:
     """cells by final sheet name: {sheet: {(row, col): value}}; a cell written twice keeps every value in .multi"""
 
-    def __init__(self, rec):
+    def __init__(self, rec, sty=None):
         self.sheets = {}
         self.multi = {}
-        for sheet, r, c, v in rec:
+        self.styles = {}  # {sheet: {(row, col): (visual_style, data_style)}} as passed to _fill_cell
+        for k, (sheet, r, c, v) in enumerate(rec):
             name = sheet.name
             d = self.sheets.setdefault(name, {})
             if (r, c) in d:
                 self.multi.setdefault(name, []).append((r, c))
             d[(r, c)] = v
+            if sty is not None and k < len(sty):
+                self.styles.setdefault(name, {})[(r, c)] = sty[k]
 
     def rows(self, sheet):
         d = self.sheets.get(sheet, {})
@@ -128,6 +133,7 @@ def generate(S, generator, country, cds, method_names, from_date, to_date, lang=
     mod = importlib.import_module("rp2.plugin.report." + generator)
     _rebind_language()
     del REC[:]
+    del STY[:]
     _INSTALLED.pop("doc", None)
     # ezodf keeps every wrapped table in a process-wide cache (it is written for one document per process): without this
     # a worker that generates thousands of reports keeps all of them alive
@@ -140,8 +146,9 @@ def generate(S, generator, country, cds, method_names, from_date, to_date, lang=
         mod.Generator().generate(country=country, years_2_accounting_method_names=method_names, asset_to_computed_data=cds, output_dir_path=d, output_file_prefix="v_", from_date=from_date, to_date=to_date, generation_language=lang)
     except Exception as e:  # pylint: disable=broad-except
         err = e
-    rec = Record(list(REC))
+    rec = Record(list(REC), list(STY))
     del REC[:]
+    del STY[:]
     if not keep:
         shutil.rmtree(d, ignore_errors=True)
     return rec, err
